@@ -36,7 +36,7 @@ theorem diskIndex_noLog_base (F : FS) : diskIndex (noLog F) = snapBase F := by
 /-- `NewDBidx` on a directory whose log is discarded leaves what it would leave on the directory without the log -/
 theorem open_state_discard (F : FS) (vol : Bool) (opts : Opts) (hd : LogDiscarded F) :
     OpenState (noLog F) vol (openIndex { fs := F, volatile := vol, opts := opts, eager := eg }) := by
-  have A := loaddat_state F vol opts
+  have A := loaddat_state (eg := eg) F vol opts
   obtain ⟨f, hf1, hf2⟩ := hd
   unfold openIndex
   dsimp only
@@ -103,7 +103,7 @@ theorem open_inv3g (F : FS) (opts : Opts) (h : OpenOK eg F)
       (E : List LogEntry) (hE : ∀ e ∈ E, EntryFits e) (hlog : LogState F' (snapVer F') E) (hsv : snapVer F' < 2^32)
       (hR : DirReadable eg F'), Inv3 (openDB F false true opts eg) ∧ (openDB F false true opts eg).pending = [] := by
     intro F' S E hE hlog hsv hR
-    obtain ⟨hload, h3⟩ := inv3_of_openState F' _ S E hE hlog hsv hR hmax
+    obtain ⟨hload, h3⟩ := inv3_of_openState F' _ S E hE hlog hsv hR hmax (openIndex_eager F false opts)
     have hopen : openDB F false true opts eg =
         { openIndex { fs := F, volatile := false, opts := opts, eager := eg } with
           index := mapV (loadedRec (openIndex { fs := F, volatile := false, opts := opts, eager := eg }).fs) (diskIndex F'),
@@ -264,7 +264,7 @@ theorem cleanupold_effs (db : DB) (used : List Nat) :
 /-- every file operation of NewDBExt on `F` is one of the removals `TrimEff F` -/
 theorem open_effs_trim (F : FS) (vol load : Bool) (opts : Opts) :
     ∀ e ∈ (openDB F vol load opts eg).effs, TrimEff F e.2 := by
-  have A := loaddat_state F vol opts
+  have A := loaddat_state (eg := eg) F vol opts
   -- loaddat
   have ha : ∀ e ∈ (loaddat { fs := F, volatile := vol, opts := opts, eager := eg }).1.effs, TrimEff F e.2 := by
     unfold loaddat
@@ -347,18 +347,18 @@ theorem open_effs_trim (F : FS) (vol load : Bool) (opts : Opts) :
 
 /-- every prefix of the file operations `es`, applied to `F0`, leaves an openable directory that holds, for all keys
     at once, either the content of `F0` or the content `new` -/
-def Atomic (F0 : FS) (es : List Effect) (new : Key → Option Bytes) : Prop :=
+def Atomic (eg : Bool) (F0 : FS) (es : List Effect) (new : Key → Option Bytes) : Prop :=
   ∀ n, OpenOK eg (F0.applyAll (es.take n)) ∧
     ((∀ k, diskValue (F0.applyAll (es.take n)) k = diskValue F0 k) ∨
      (∀ k, diskValue (F0.applyAll (es.take n)) k = new k))
 
-theorem atomic_nil (F0 : FS) (new : Key → Option Bytes) (h : OpenOK eg F0) : Atomic F0 [] new := by
+theorem atomic_nil (F0 : FS) (new : Key → Option Bytes) (h : OpenOK eg F0) : Atomic eg F0 [] new := by
   intro n
   rw [List.take_nil]
   exact ⟨h, Or.inl (fun _ => rfl)⟩
 
-theorem atomic_append {F0 : FS} {a b : List Effect} {new : Key → Option Bytes} (ha : Atomic F0 a new)
-    (hb : Atomic (F0.applyAll a) b new) : Atomic F0 (a ++ b) new := by
+theorem atomic_append {F0 : FS} {a b : List Effect} {new : Key → Option Bytes} (ha : Atomic eg F0 a new)
+    (hb : Atomic eg (F0.applyAll a) b new) : Atomic eg F0 (a ++ b) new := by
   intro n
   by_cases hn : n ≤ a.length
   · rw [List.take_append_of_le_length hn]; exact ha n
@@ -375,8 +375,8 @@ theorem atomic_append {F0 : FS} {a b : List Effect} {new : Key → Option Bytes}
       · exact Or.inr (fun k => (v k).trans (m k))
     · exact Or.inr v
 
-theorem Atomic.congr {F0 : FS} {es : List Effect} {new new' : Key → Option Bytes} (h : Atomic F0 es new)
-    (e : ∀ k, new k = new' k) : Atomic F0 es new' := by
+theorem Atomic.congr {F0 : FS} {es : List Effect} {new new' : Key → Option Bytes} (h : Atomic eg F0 es new)
+    (e : ∀ k, new k = new' k) : Atomic eg F0 es new' := by
   intro n
   obtain ⟨o, v⟩ := h n
   refine ⟨o, ?_⟩
@@ -396,11 +396,16 @@ theorem sync_logWritten3 (db : DB) (h : Inv3 db) (hp : db.pending.isEmpty = fals
       Inv3 L ∧ absv L = absv db ∧ L.pending = [] ∧
       (∃ es, L.effs = db.effs ++ es ∧ es.map (·.2) = syncEffs db) ∧
       L.fs = db.fs.applyAll (syncEffs db) ∧ L.dataSeq = db.dataSeq ∧
-      L = logWritten (db.pending.foldl syncKey (checkDat db, [])).1 (db.pending.foldl syncKey (checkDat db, [])).2 := by
+      L = logWritten (db.pending.foldl syncKey (checkDat db, [])).1 (db.pending.foldl syncKey (checkDat db, [])).2 ∧
+      L.eager = db.eager := by
   have inv := h.inv
   have i2 := h.i2
   obtain ⟨L, hL, invL, absL, pL, _, hes, _, hfs, b1, b2, b3, b4, b5, b6, b7⟩ := sync_logWritten db inv hp hs.1
-  refine ⟨L, hL, ⟨invL, ?_⟩, absL, pL, hes, hfs, b3, b7⟩
+  have hLe : L.eager = db.eager := by
+    rw [b7, logWritten_eager]
+    exact (syncFold_cached db.pending (checkDat db, [])
+      (Cached.of_frame (frame_checkDat db) inv.cached)).eager.trans (frame_checkDat db).eager
+  refine ⟨L, hL, ⟨invL, ?_⟩, absL, pL, hes, hfs, b3, b7, hLe⟩
   constructor
   · unfold idxFile; rw [b1, b4, b5]; exact i2.free
   · unfold otherIdx; rw [b1, b2, b4, b5]; exact i2.other
@@ -420,13 +425,13 @@ theorem sync_logWritten3 (db : DB) (h : Inv3 db) (hp : db.pending.isEmpty = fals
         omega
 
 theorem sync_part_atomic (db : DB) (h : Inv3 db) (hp : db.pending.isEmpty = false) (hs : SizeOK db) :
-    Atomic db.fs (syncEffs db) (vals db) := by
+    Atomic db.eager db.fs (syncEffs db) (vals db) := by
   intro n
   by_cases hn : n < (syncEffs db).length
   · exact ⟨sync_prefix_ok db h.inv n hn, Or.inl (sync_prefix db h.inv n hn).2⟩
   · rw [List.take_of_length_le (by omega)]
-    obtain ⟨L, _, h3L, absL, pL, _, hfs, _, _⟩ := sync_logWritten3 db h hp hs
-    rw [← hfs]
+    obtain ⟨L, _, h3L, absL, pL, _, hfs, _, _, hLe⟩ := sync_logWritten3 db h hp hs
+    rw [← hfs, ← hLe]
     refine ⟨openOK_of_inv L h3L.inv, Or.inr (fun k => ?_)⟩
     rw [diskValue_of_inv L h3L.inv pL k]; unfold vals; rw [absL]
 
@@ -451,7 +456,7 @@ theorem defragReady_of (L : DB) (h : Inv3 L) (hsm : 4 + (valsOf L.index).flatten
   · rw [snapBytes_length, layout_length]; exact hd.small
 
 theorem defrag_atomic' (L : DB) (hready : DefragReady L) :
-    ∃ es, (defrag L).effs = L.effs ++ es ∧ Atomic L.fs (es.map (·.2)) (vals L) := by
+    ∃ es, (defrag L).effs = L.effs ++ es ∧ Atomic L.eager L.fs (es.map (·.2)) (vals L) := by
   obtain ⟨es, he, hall⟩ := defrag_prefix L hready
   refine ⟨es, he, fun n => ?_⟩
   obtain ⟨o, v⟩ := hall n
@@ -461,13 +466,13 @@ theorem defrag_atomic' (L : DB) (hready : DefragReady L) :
   · exact Or.inr (fun k => by rw [v k, vals_eq])
 
 theorem defrag_atomic (L : DB) (h : Inv3 L) (hsm : 4 + (valsOf L.index).flatten.length < 2^32) (hd : DFits L) :
-    ∃ es, (defrag L).effs = L.effs ++ es ∧ Atomic L.fs (es.map (·.2)) (vals L) :=
+    ∃ es, (defrag L).effs = L.effs ++ es ∧ Atomic L.eager L.fs (es.map (·.2)) (vals L) :=
   defrag_atomic' L (defragReady_of L h hsm hd)
 
 /-- all crash points of sync() (log write and a possible forced defrag included) -/
 theorem sync_atomic (db : DB) (h : Inv3 db) (hs : SizeOK db) (hd : DFits db) :
     ∃ es, (sync db).effs = db.effs ++ es ∧ (sync db).fs = db.fs.applyAll (es.map (·.2)) ∧
-      Atomic db.fs (es.map (·.2)) (vals db) := by
+      Atomic db.eager db.fs (es.map (·.2)) (vals db) := by
   obtain ⟨es, he1, he2⟩ := replays_sync db
   refine ⟨es, he1, he2, ?_⟩
   cases hp : db.pending.isEmpty with
@@ -481,7 +486,7 @@ theorem sync_atomic (db : DB) (h : Inv3 db) (hs : SizeOK db) (hd : DFits db) :
     rw [this]
     exact atomic_nil _ _ (openOK_of_inv db h.inv)
   | false =>
-    obtain ⟨L, hL, h3L, absL, pL, ⟨es1, hes1, hes1m⟩, hfs, hds, _⟩ := sync_logWritten3 db h hp hs
+    obtain ⟨L, hL, h3L, absL, pL, ⟨es1, hes1, hes1m⟩, hfs, hds, _, hLe⟩ := sync_logWritten3 db h hp hs
     have hA := sync_part_atomic db h hp hs
     by_cases hc : L.extra > L.opts.forcedPerc * L.need / 100
     · rw [if_pos hc] at hL
@@ -495,7 +500,7 @@ theorem sync_atomic (db : DB) (h : Inv3 db) (hs : SizeOK db) (hd : DFits db) :
         rw [← he1, hL, hes2, hes1, List.append_assoc]
       rw [hes, List.map_append, hes1m]
       apply atomic_append hA
-      rw [← hfs]
+      rw [← hfs, ← hLe]
       exact hA2.congr (fun k => by unfold vals; rw [absL])
     · rw [if_neg hc] at hL
       have hes : es = es1 := by
@@ -517,7 +522,7 @@ def preSync (db : DB) : Op → DB
 theorem afterChange_crash (M : DB) (k : Key) (hM : Inv3 (addPending M k)) (hs : SizeOK (addPending M k))
     (hv : M.volatile = false) (hd : DFits (addPending M k)) :
     ∃ es, (afterChange M k).effs = (addPending M k).effs ++ es ∧
-      Atomic (addPending M k).fs (es.map (·.2)) (vals (afterChange M k)) := by
+      Atomic (addPending M k).eager (addPending M k).fs (es.map (·.2)) (vals (afterChange M k)) := by
   unfold afterChange
   rw [if_neg (by simp [hv])]
   split
@@ -528,38 +533,39 @@ theorem afterChange_crash (M : DB) (k : Key) (hM : Inv3 (addPending M k)) (hs : 
 /-- All crash points of one operation. The file operations `es` of `op` are such that after ANY number of them the
     directory is openable and holds, for all keys at once, either what it held before `op` or the complete in-memory
     content after `op`. -/
-theorem step_crash (db : DB) (h : Inv3 db) (op : Op) (ok : OpOK2 eg op) (fits : OpFits2 db op)
+theorem step_crash (db : DB) (h : Inv3 db) (op : Op) (ok : OpOK2 db.eager op) (fits : OpFits2 db op)
     (hd : DFits (preSync db op)) :
     ∃ es, (step db op).effs = db.effs ++ es ∧ (step db op).fs = db.fs.applyAll (es.map (·.2)) ∧
-      Atomic db.fs (es.map (·.2)) (vals (step db op)) := by
+      Atomic db.eager db.fs (es.map (·.2)) (vals (step db op)) := by
   obtain ⟨es, he1, he2⟩ := replays_step db op
   refine ⟨es, he1, he2, ?_⟩
-  suffices hsuff : ∃ es', (step db op).effs = db.effs ++ es' ∧ Atomic db.fs (es'.map (·.2)) (vals (step db op)) by
+  suffices hsuff : ∃ es', (step db op).effs = db.effs ++ es' ∧ Atomic db.eager db.fs (es'.map (·.2)) (vals (step db op)) by
     obtain ⟨es', h1, h2⟩ := hsuff
     have : es = es' := List.append_cancel_left (he1.symm.trans h1)
     rw [this]; exact h2
   have inv := h.inv
   have i2 := h.i2
-  have hnil : Atomic db.fs (([] : List (String × Effect)).map (·.2)) (vals (step db op)) :=
+  have hnil : Atomic db.eager db.fs (([] : List (String × Effect)).map (·.2)) (vals (step db op)) :=
     atomic_nil _ _ (openOK_of_inv db inv)
   cases op with
   | put k v =>
     obtain ⟨a, b, c⟩ := fits
-    show ∃ es', (putExt db k v 0).effs = _ ∧ Atomic db.fs _ (vals (putExt db k v 0))
+    show ∃ es', (putExt db k v 0).effs = _ ∧ Atomic db.eager db.fs _ (vals (putExt db k v 0))
     unfold putExt
     rw [if_neg (notFailed inv.cached)]
     obtain ⟨e, n, m, hmp⟩ := memput_same db k (newRec v 0)
-    have hM := putExt_addPending_inv db inv k v 0 a b (by decide) (by decide)
+    have hM := putExt_addPending_inv db inv k v 0 a b (by decide) (zeroFlags_ok _)
     have hM2 : Inv2 (addPending (memput db k (newRec v 0)) k) := by
       rw [addPending_same, hmp]; exact inv2_same i2 rfl rfl rfl rfl
     obtain ⟨es', x, z⟩ := afterChange_crash _ k ⟨hM, hM2⟩ c (by rw [hmp]; exact inv.nv) hd
     have e1 : (addPending (memput db k (newRec v 0)) k).effs = db.effs := by rw [addPending_same, hmp]
     have e2 : (addPending (memput db k (newRec v 0)) k).fs = db.fs := by rw [addPending_same, hmp]
-    rw [e1] at x; rw [e2] at z
+    have e3 : (addPending (memput db k (newRec v 0)) k).eager = db.eager := (addPending_eager _ _).trans (memput_eager _ _ _)
+    rw [e1] at x; rw [e2, e3] at z
     exact ⟨es', x, z⟩
   | putExt k v f =>
     obtain ⟨a, b, c, d⟩ := fits
-    show ∃ es', (putExt db k v f).effs = _ ∧ Atomic db.fs _ (vals (putExt db k v f))
+    show ∃ es', (putExt db k v f).effs = _ ∧ Atomic db.eager db.fs _ (vals (putExt db k v f))
     unfold putExt
     rw [if_neg (notFailed inv.cached)]
     obtain ⟨e, n, m, hmp⟩ := memput_same db k (newRec v f)
@@ -569,10 +575,11 @@ theorem step_crash (db : DB) (h : Inv3 db) (op : Op) (ok : OpOK2 eg op) (fits : 
     obtain ⟨es', x, z⟩ := afterChange_crash _ k ⟨hM, hM2⟩ d (by rw [hmp]; exact inv.nv) hd
     have e1 : (addPending (memput db k (newRec v f)) k).effs = db.effs := by rw [addPending_same, hmp]
     have e2 : (addPending (memput db k (newRec v f)) k).fs = db.fs := by rw [addPending_same, hmp]
-    rw [e1] at x; rw [e2] at z
+    have e3 : (addPending (memput db k (newRec v f)) k).eager = db.eager := (addPending_eager _ _).trans (memput_eager _ _ _)
+    rw [e1] at x; rw [e2, e3] at z
     exact ⟨es', x, z⟩
   | del k =>
-    show ∃ es', (del db k).effs = _ ∧ Atomic db.fs _ (vals (del db k))
+    show ∃ es', (del db k).effs = _ ∧ Atomic db.eager db.fs _ (vals (del db k))
     unfold del
     rw [if_neg (notFailed inv.cached)]
     obtain ⟨e, n, hmd⟩ := memdel_same db k
@@ -582,7 +589,8 @@ theorem step_crash (db : DB) (h : Inv3 db) (op : Op) (ok : OpOK2 eg op) (fits : 
     obtain ⟨es', x, z⟩ := afterChange_crash _ k ⟨hM, hM2⟩ fits.2 (by rw [hmd]; exact inv.nv) hd
     have e1 : (addPending (memdel db k) k).effs = db.effs := by rw [addPending_same, hmd]
     have e2 : (addPending (memdel db k) k).fs = db.fs := by rw [addPending_same, hmd]
-    rw [e1] at x; rw [e2] at z
+    have e3 : (addPending (memdel db k) k).eager = db.eager := (addPending_eager _ _).trans (memdel_eager _ _)
+    rw [e1] at x; rw [e2, e3] at z
     exact ⟨es', x, z⟩
   | get k =>
     refine ⟨[], ?_, hnil⟩
@@ -610,7 +618,7 @@ theorem step_crash (db : DB) (h : Inv3 db) (op : Op) (ok : OpOK2 eg op) (fits : 
     | none => simp
     | some r => simp
   | defrag f =>
-    show ∃ es', (defragOp db f).1.effs = _ ∧ Atomic db.fs _ (vals (defragOp db f).1)
+    show ∃ es', (defragOp db f).1.effs = _ ∧ Atomic db.eager db.fs _ (vals (defragOp db f).1)
     unfold defragOp
     rw [if_neg (notFailed inv.cached), if_neg (by simp [inv.nv])]
     dsimp only
@@ -621,7 +629,7 @@ theorem step_crash (db : DB) (h : Inv3 db) (op : Op) (ok : OpOK2 eg op) (fits : 
       rw [(defrag_inv db inv.cached inv.nv ⟨inv.cached.2, inv.wf, inv.nodup, fits.2⟩).2.1]
     · exact ⟨[], by simp, atomic_nil _ _ (openOK_of_inv db inv)⟩
   | sync =>
-    show ∃ es', (syncOp db).effs = _ ∧ Atomic db.fs _ (vals (syncOp db))
+    show ∃ es', (syncOp db).effs = _ ∧ Atomic db.eager db.fs _ (vals (syncOp db))
     unfold syncOp
     rw [if_neg (notFailed inv.cached), if_neg (by simp [inv.nv])]
     have h3' : Inv3 { db with noSync := false } := ⟨inv_noSync db inv false, inv2_same i2 rfl rfl rfl rfl⟩
@@ -642,24 +650,25 @@ theorem step_crash (db : DB) (h : Inv3 db) (op : Op) (ok : OpOK2 eg op) (fits : 
       simp only [inv.nv, Bool.false_eq_true, ↓reduceIte, sinv.cached.1]
       exact ⟨trivial, trivial, trivial⟩
     have hstep : (step db (.reopen false true opts)).effs =
-        (sync db).effs ++ (openDB (sync db).fs false true opts eg).effs := by
+        (sync db).effs ++ (openDB (sync db).fs false true opts db.eager).effs := by
       show (match (close db).failed with
         | some _ => close db
-        | none => { openDB (close db).fs false true opts eg with
-                    effs := (close db).effs ++ (openDB (close db).fs false true opts eg).effs }).effs = _
-      rw [hclose.1, hclose.2.1, hclose.2.2]
+        | none => { openDB (close db).fs false true opts (close db).eager with
+                    effs := (close db).effs ++ (openDB (close db).fs false true opts (close db).eager).effs }).effs = _
+      rw [hclose.1, hclose.2.1, hclose.2.2, close_eager db inv.cached]
     have hr := (reopen_inv3 db h opts fits.1 fits.2).2
     obtain ⟨es1, x1, y1, z1⟩ := sync_atomic db h fits.1 hd
-    refine ⟨es1 ++ (openDB (sync db).fs false true opts eg).effs, by rw [hstep, x1, List.append_assoc], ?_⟩
+    refine ⟨es1 ++ (openDB (sync db).fs false true opts db.eager).effs, by rw [hstep, x1, List.append_assoc], ?_⟩
     rw [List.map_append]
     apply atomic_append (z1.congr (fun j => (hr j).symm))
     rw [← y1]
     intro n
-    have T := (Trim.refl (sync db).fs).applyAll (((openDB (sync db).fs false true opts eg).effs.map (·.2)).take n)
+    have T := (Trim.refl (sync db).fs).applyAll (((openDB (sync db).fs false true opts db.eager).effs.map (·.2)).take n)
       (fun e he => by
         obtain ⟨x, hx, rfl⟩ := List.mem_map.mp (List.mem_of_mem_take he)
         exact open_effs_trim _ _ _ _ x hx)
     obtain ⟨o, v⟩ := T.ok (openOK_of_inv (sync db) sinv)
+    rw [(sync_cached db inv.cached).eager] at o
     exact ⟨o, Or.inl v⟩
 
 /-- crashes inside recovery attempts change nothing a later NewDBExt looks at -/
@@ -668,10 +677,10 @@ theorem recrash_ok (opts : Opts) (ms : List Nat) (F : FS) (h : OpenOK eg F) :
   induction ms generalizing F with
   | nil => exact ⟨h, fun _ => rfl⟩
   | cons m t ih =>
-    have T := (Trim.refl F).applyAll (((openDB F false true opts eg).effs.map (·.2)).take m)
+    have T := (Trim.refl F).applyAll (((openDB F false true opts).effs.map (·.2)).take m)
       (fun e he => by
         obtain ⟨x, hx, rfl⟩ := List.mem_map.mp (List.mem_of_mem_take he)
-        exact open_effs_trim _ _ _ _ x hx)
+        exact open_effs_trim (eg := false) _ _ _ _ x hx)
     obtain ⟨o, v⟩ := T.ok h
     obtain ⟨o2, v2⟩ := ih _ o
     exact ⟨o2, fun k => (v2 k).trans (v k)⟩
@@ -686,7 +695,7 @@ def mustSync : Op → Bool
   | _ => false
 
 /-- after Sync, Defrag(true) and Close+reopen nothing is pending -/
-theorem mustSync_pending (db : DB) (h : Inv3 db) (op : Op) (ok : OpOK2 eg op) (fits : OpFits2 db op)
+theorem mustSync_pending (db : DB) (h : Inv3 db) (op : Op) (ok : OpOK2 db.eager op) (fits : OpFits2 db op)
     (hm : mustSync op = true) : (step db op).pending = [] := by
   have inv := h.inv
   cases op with
@@ -714,10 +723,12 @@ theorem mustSync_pending (db : DB) (h : Inv3 db) (op : Op) (ok : OpOK2 eg op) (f
       exact ⟨trivial, trivial⟩
     show (match (close db).failed with
       | some _ => close db
-      | none => { openDB (close db).fs false true opts eg with
-                  effs := (close db).effs ++ (openDB (close db).fs false true opts eg).effs }).pending = []
-    rw [hclose.1, hclose.2]
-    exact (open_inv3g (sync db).fs opts (openOK_of_inv _ sinv) fits.2).2
+      | none => { openDB (close db).fs false true opts (close db).eager with
+                  effs := (close db).effs ++ (openDB (close db).fs false true opts (close db).eager).effs }).pending = []
+    rw [hclose.1, hclose.2, close_eager db inv.cached]
+    have hok := openOK_of_inv _ sinv
+    rw [(sync_cached db inv.cached).eager] at hok
+    exact (open_inv3g (sync db).fs opts hok fits.2).2
   | put k v => simp [mustSync] at hm
   | putExt k v f => simp [mustSync] at hm
   | del k => simp [mustSync] at hm
